@@ -186,7 +186,7 @@ PROPS = {
     'C17': dict(undecided='panics inside trusted container code (heapless)', fn=p_C17, level='proof', explanation='Every public entry point of the six modules is analysed from the most general abstract pre-state satisfying its class invariant over the documented argument ranges (incl. NaN/inf where stated, parser-state x byte-class partitions for MIDI); every Assert terminator and explicit panic met becomes an obligation, all are discharged; class invariants are re-established on every post-state; all reachable Assert sites are visited (coverage floor); every loop is driven by a bounded iterator; timed envelope phases end (increment >= 1 and exact roll-over detection).'),
     'C15': dict(undecided='nothing', fn=p_C15, level='proof', explanation='Effect summary of poll() over (in range?) x (settling count reached?) x (buffer full?) x (pressing, just_pressed, just_released): every out-of-range path releases, zeroes both progress counters and latches the release edge; in-range paths advance the counters by one (saturating), store the sample iff settled, and raise the press exactly when the fill counter reaches the capacity; getters return and clear. The run-length statement follows by induction on the counters.'),
     'C16': dict(undecided='the exact f32 value of the mean; heapless ring order is trusted', fn=p_C16, level='other', explanation='current_val is written only in the buffer-full block as E(a), a = sum(take(oldest_ordered(buffer after this write), N-discard))/(N-discard) (container terms), retained on every other path; value() = current_val/boundary; E is monotone with 0 <= E(a) <= a on the parameter box; counters restart after every out-of-range sample so no earlier press contributes; constructor discard count agrees with the capacity helper (N = main+discard+1). heapless ring order is trusted; the exact f32 mean is not decided.'),
-    'C13': dict(undecided='f32 quantisation of the filter state near convergence', fn=p_C13, level='proof', explanation='For the constructor and for set_time over a partition of t in [0,inf) that carries the cutoff/sample-rate relation exactly (t=0; t=tau/fs; t=1/(u*fs), u=f0/fs<=1/4; t>=10 s), the coefficient terms produced by the dependency design (its own MIR) are, after clearing the common denominator, a convex combination: b0,b1,-a1 >= 0, sum 1, pole -a1 < 1, a2=b2=0; process() is the five-term recurrence on (input, previous input, previous output) and set_time touches nothing but the coefficients. Hence no overshoot/ringing for any history and contraction for constant input, over the reals.'),
+    'C13': dict(undecided='f32 quantisation of the filter state near convergence', fn=p_C13, level='proof', explanation='For the constructor and for set_time over a partition of t in [0,inf) that carries the cutoff/sample-rate relation exactly (t=0; 0<t<1/max_fc as tau/fs; t=1/max_fc; 1/max_fc<t<1/min_fc as 1/(u*fs), u=f0/fs; t=1/min_fc; t>1/min_fc; max_fc/fs read from the design of the constructor), the coefficient terms produced by the dependency design (its own MIR) are, after clearing the common denominator, a convex combination: b0,b1,-a1 >= 0, sum 1, pole -a1 < 1, a2=b2=0; process() is the five-term recurrence on (input, previous input, previous output) and set_time touches nothing but the coefficients. Hence no overshoot/ringing for any history and contraction for constant input, over the reals.'),
     'C14': dict(undecided='f32 rounding of the coefficients inside the response lemma', fn=p_C14, level='other', explanation='set_time is ignored exactly on paths implying |t - cached_t| <= 0.05 and then writes nothing; otherwise cached_t := t together with the coefficients, whose design argument is pi*clamp(1/t, 0.1 Hz, max_fc)/fs per partition of t. The response percentages are decided as a lemma about these formulas by interval arithmetic over n = t*fs (R-RESPONSE), over the reals.'),
     'C07': dict(undecided='nothing (one reasoned exception: the zero-initialised search result, excluded by the mask invariant)', fn=p_C07, level='proof', explanation='Mask invariant allowed in [1,4095] is inductive over new/allow/forbid (Kleene iteration over the note slice, slice length partitioned 0 / >=1), forbid rescues the LAST note; the hysteresis early return is taken only on paths that imply the cached pitch class (note mod 12) is enabled now; every value find_nearest_note can return is the note of an enabled candidate (loop invariant: the recorded best is always pc*H+k*O with pc enabled, checked inductive over both back edges).'),
     'C08': dict(undecided='optimality of the scan arithmetic over all 4095 scales x inputs, the semitone-bucket rule and the 10 uV tie tolerance', fn=p_C08, level='other', explanation='Necessary structure of the nearest-note scan only: octaves searched are exactly k-1 (if it exists), k, k+1 (if it exists) in ascending order; every returned note is either within one half step of the input or the recorded best candidate; search input is the clamped input; microvolt constants consistent. Optimality of the scan arithmetic (nearest note over all 4095 scales, tie tolerance) is NOT decided.'),
@@ -210,8 +210,17 @@ DEFAULT_NOTE = ('Trusted base: rustc MIR construction and const evaluation; the 
 NOT_APPLICABLE = {}
 
 ASSUMPTIONS = {
-    'common': ['midi_types newtypes hold 7-bit / 4-bit values (established by R-PARSER: constructed from data bytes < 0x80 and byte & 0x0F)',
-               'library models as listed in trusted_base'],
+    'common': ['library models as listed in trusted_base (sa/models.py)', 'f32 arithmetic reasoned about over the reals unless a rule states its slack'],
+    'midi': ['midi_types newtypes hold 7-bit / 4-bit values (established by R-PARSER in C06: constructed from data bytes < 0x80 and byte & 0x0F)',
+             'at most 32 outstanding note-ons for the list clauses (the property\'s own bound); push on a full list is analysed as "unchanged"'],
+    'ranges': ['documented argument ranges of C17: sample rates in [100 Hz, 192 kHz], glide times >= 0, ribbon samples in [0,1], LFO frequency in [0, fs]',
+               'TimePeriod / SustainLevel / Note ranges are computed from their own conversion functions, not assumed'],
+    'ribbon': ['buffer capacity N is the helper\'s value for the same sample rate (discard < N); error_const in [0,1] (pull-up >= divider resistance)'],
+}
+PROP_ASSUMPTIONS = {
+    'C01': ['ranges'], 'C02': ['ranges'], 'C03': ['ranges'], 'C04': ['midi'], 'C05': ['midi'], 'C06': ['midi'], 'C07': [], 'C08': [], 'C09': [],
+    'C10': ['ranges'], 'C11': ['ranges'], 'C12': ['ranges'], 'C13': ['ranges'], 'C14': ['ranges'], 'C15': ['ribbon'], 'C16': ['ribbon'],
+    'C17': ['ranges', 'midi', 'ribbon'], 'C18': ['midi'], 'C19': [], 'C20': [],
 }
 
 
@@ -261,6 +270,7 @@ def run_control(res, prop, spec, tier):
         res.extra['control'] = {'patch': 'controls/%s.diff' % prop, 'violations_reported_on_control': len(fired),
                                 'first': fired[0].to_json() if fired else None, 'facts_key': out[2]}
         res.ob('CONTROL', 'rules fire on the known-bad twin (controls/%s.diff)' % prop, bool(fired),
+               ('%d violation(s) reported on the control, first: %s' % (len(fired), fired[0].instance[:120])) if fired else
                'the positive control was NOT reported: the rule set for %s has gone blind' % prop, key='CONTROL:' + prop, nontrivial=False)
     if tier != 'thorough':
         return
@@ -317,5 +327,8 @@ def main(argv):
         res.ob('ANALYSIS', 'internal', False, 'internal error: %r' % (e,), key='ANALYSIS-INTERNAL')
     if not res.violations():
         run_control(res, prop, spec, tier)
-    return finish(res, tier, spec['level'], t0, key, ASSUMPTIONS['common'] + spec.get('assumptions', []),
+    assumptions = list(ASSUMPTIONS['common'])
+    for g in PROP_ASSUMPTIONS.get(prop, []):
+        assumptions += ASSUMPTIONS[g]
+    return finish(res, tier, spec['level'], t0, key, assumptions + spec.get('assumptions', []),
                   spec['explanation'], TRUSTED, seed)
